@@ -8,15 +8,8 @@ import CnvVerif.Lemmas.FixGlue
 namespace CnvVerif.C04
 open CnvVerif
 
-/-- the positional flags of the two `load_adjust_coverages` calls in `do_fix`, as read from the source on every run
-    (skip_low, fix_gc, fix_edge, fix_rmask): targets are centred skipping low-coverage bins and never rmask-corrected,
-    antitargets are centred on all bins and never edge-corrected; the shuffle of every correction is seeded with 0xA5EED -/
-theorem class_flags_are_the_source :
-    Generated.FIX_TARGET_FLAGS = ["True", "do_gc", "do_edge", "False"] ∧
-    Generated.FIX_ANTITARGET_FLAGS = ["False", "do_gc", "False", "do_rmask"] ∧
-    Generated.CENTER_BY_WINDOW_SEEDS = [0xA5EED] := by decide
-
-/-- … and the model's `doFix` makes exactly those two calls (then combines, subtracts, weights, centres: `fixCore`) -/
+/-- the model's `doFix` makes exactly the two `load_adjust_coverages` calls whose flags `class_flags_are_the_source`
+    (Props/C04SrcFlags) reads off the source, then combines, subtracts, weights, centres (`fixCore`) -/
 theorem fix_runs_each_class_with_its_flags (tgt anti : List SRow) (ref : List RRow) (cfg : FixCfg) (P : FixParams)
     (hns : (tgt.map sKey).any (fun k => (anti.map sKey).contains k) = false) :
     doFix tgt anti ref cfg P =
